@@ -19,9 +19,24 @@ struct Plan {
     armed: AtomicBool,
     calls: AtomicU64,
     fail: Mutex<BTreeMap<u64, bool>>, // index -> fail after?
+    /// burst cases: fail the k-th write into the allocation journal (blocks 1..=6), once
+    journal_k: Mutex<Option<u64>>,
+    journal_seen: AtomicU64,
 }
 
 impl Plan {
+    fn decide_write(&self, offset: u64) -> Decision {
+        if self.armed.load(Ordering::SeqCst) && (4096..7 * 4096).contains(&offset) {
+            let n = self.journal_seen.fetch_add(1, Ordering::SeqCst);
+            let mut k = self.journal_k.lock().unwrap();
+            if *k == Some(n) {
+                *k = None;
+                self.calls.fetch_add(1, Ordering::SeqCst);
+                return Decision::FailBefore;
+            }
+        }
+        self.decide()
+    }
     fn decide(&self) -> Decision {
         if !self.armed.load(Ordering::SeqCst) {
             return Decision::Proceed;
@@ -36,8 +51,8 @@ impl Plan {
 }
 
 impl Observer for Plan {
-    fn write(&self, _fd: i32, _offset: u64, _data: &[u8], _ring: bool) -> Decision {
-        self.decide()
+    fn write(&self, _fd: i32, offset: u64, _data: &[u8], _ring: bool) -> Decision {
+        self.decide_write(offset)
     }
     fn fsync(&self, _fd: i32) -> Decision {
         self.decide()
@@ -59,6 +74,104 @@ fn value_of(id: u64, len: usize) -> Vec<u8> {
     let mut v = format!("fp{id:05}:").into_bytes();
     v.resize(len, b'a' + (id % 26) as u8);
     v
+}
+
+/// Oracle-only case: thousands of one-block inserts pile up behind the buffer-full trigger, so that a
+/// worker's pass spans several journal batches; one journal write fails once.  Flush until it
+/// answers Ok: then every accepted key must be published and readable.
+fn burst_case(rng: &mut Rng, case: u64, dir: &str, plan: &Arc<Plan>) -> (String, String, String) {
+    let path = format!("{dir}/dev/fpb_{}_{case}.feox", std::process::id());
+    let _ = std::fs::remove_file(&path);
+    plan.armed.store(false, Ordering::SeqCst);
+    plan.calls.store(0, Ordering::SeqCst);
+    plan.fail.lock().unwrap().clear();
+    plan.journal_seen.store(0, Ordering::SeqCst);
+    let n = rng.range(9_000, 14_000);
+    let store = match FeoxStore::builder().device_path(path.clone()).file_size((n + 600) * 4096 + 4000 * 4096).hash_bits(12).enable_caching(false).no_memory_limit().build() {
+        Ok(s) => s,
+        Err(e) => return ("note failpath-burst".into(), "note".into(), format!("FAIL cannot-create-store {e}")),
+    };
+    // half of the bursts run without any failure: a flush() that races with the passes the
+    // buffer-full trigger started must still wait for them
+    let k = if rng.chance(1, 2) { 999_999 } else { rng.below(24) };
+    *plan.journal_k.lock().unwrap() = Some(k);
+    plan.armed.store(true, Ordering::SeqCst);
+    // "tail" variant: all keys in one shard and only a few more than the buffer-full threshold, so
+    // that the pass the trigger starts drains the whole shard and is still writing when flush() comes
+    let tail = rng.chance(1, 2);
+    let n = if tail { 1024 + rng.below(30) } else { n };
+    let keys: Vec<Vec<u8>> = if tail {
+        let mut v = Vec::new();
+        let mut shard = None;
+        let mut i = 0u64;
+        while (v.len() as u64) < n {
+            let key = format!("tail{i:07}").into_bytes();
+            i += 1;
+            let sh = store.verif_write_shard(&key).map(|t| t.0);
+            if shard.is_none() {
+                shard = sh;
+            }
+            if sh == shard {
+                v.push(key);
+            }
+        }
+        v
+    } else {
+        (0..n).map(|i| format!("burst{i:06}").into_bytes()).collect()
+    };
+    let mut verdict = "ok".to_string();
+    for (i, key) in keys.iter().enumerate() {
+        // tail variant: three-block values make the pass's serialisation phase last milliseconds
+        if let Err(e) = store.insert(key, &value_of(i as u64, if tail { 11_000 } else { 100 })) {
+            verdict = format!("FAIL insert-refused {e}");
+            break;
+        }
+    }
+    if tail {
+        // give the triggered pass time to drain the shard: flush() must then wait for a worker whose
+        // shard looks empty but whose entries are not written yet
+        let wait = std::time::Duration::from_micros(rng.range(100, 2500));
+        let t0 = std::time::Instant::now();
+        while t0.elapsed() < wait {
+            std::hint::spin_loop();
+        }
+    }
+    let mut results = Vec::new();
+    let mut flushed_at_ack = u64::MAX;
+    for _ in 0..6 {
+        let r = store.flush();
+        if r.is_ok() {
+            // read at once: a pass that flush() did not wait for finishes within milliseconds
+            flushed_at_ack = store.stats().writes_flushed;
+        }
+        results.push(class(&r));
+        if r.is_ok() {
+            break;
+        }
+    }
+    if verdict == "ok" && flushed_at_ack < n {
+        verdict = format!("FAIL flush-returned-Ok-while-{}-of-{n}-accepted-writes-had-not-been-written", n - flushed_at_ack);
+    }
+    if verdict == "ok" {
+        if results.last().map(|s| s.as_str()) != Some("ok") {
+            if !results.iter().any(|r| r == "indet") {
+                verdict = format!("FAIL flush-keeps-failing-after-a-single-transient-failure results={results:?}");
+            }
+        } else {
+            let snap = store.verif_snapshot();
+            let published: std::collections::HashSet<&[u8]> = snap.iter().filter(|x| x.sector != 0).map(|x| x.key.as_slice()).collect();
+            let missing = keys.iter().filter(|k| !published.contains(k.as_slice())).count();
+            if missing > 0 {
+                verdict = format!("FAIL flush-returned-Ok-but-{missing}-of-{n}-accepted-keys-are-not-on-the-device journal-write={k}");
+            }
+        }
+    }
+    plan.armed.store(false, Ordering::SeqCst);
+    *plan.journal_k.lock().unwrap() = None;
+    let seen = plan.journal_seen.load(Ordering::SeqCst);
+    drop(store);
+    let _ = std::fs::remove_file(&path);
+    (format!("note failpath-burst tail={} n={n} failing-journal-write={k} journal-writes={seen} flushes={}", tail as u8, results.join(",")), "note".into(), verdict)
 }
 
 fn one_case(rng: &mut Rng, case: u64, dir: &str, plan: &Arc<Plan>) -> (String, String, String) {
@@ -193,15 +306,16 @@ pub fn child(opts: &Opts) -> i32 {
     let sh = opts.u64("shard", 0);
     let seed = opts.u64("seed", 1);
     let n = opts.u64("n", 20);
+    let burst_every = opts.u64("burst_every", 12).max(1);
     std::fs::create_dir_all(format!("{dir}/dev")).unwrap();
-    let plan = Arc::new(Plan { armed: AtomicBool::new(false), calls: AtomicU64::new(0), fail: Mutex::new(BTreeMap::new()) });
+    let plan = Arc::new(Plan { armed: AtomicBool::new(false), calls: AtomicU64::new(0), fail: Mutex::new(BTreeMap::new()), journal_k: Mutex::new(None), journal_seen: AtomicU64::new(0) });
     feoxdb::verif::dev::set_force_sync_path(true);
     feoxdb::verif::dev::set_periodic_flush_paused(true);
     feoxdb::verif::dev::install(Some(plan.clone()));
     let mut out = Out::new(&dir, &format!("s{sh}"));
     let mut rng = Rng::new(seed.wrapping_mul(40_503).wrapping_add(sh * 65_537));
     for case in 0..n {
-        let (c, l, v) = one_case(&mut rng, case, &dir, &plan);
+        let (c, l, v) = if case % burst_every == burst_every - 1 { burst_case(&mut rng, case, &dir, &plan) } else { one_case(&mut rng, case, &dir, &plan) };
         out.emit3(&c, &l, &v);
     }
     let total = out.finish();
@@ -214,11 +328,12 @@ pub fn run(opts: &Opts) -> i32 {
     let seed = opts.u64("seed", 1);
     let shards = opts.u64("shards", 16);
     let n = opts.u64("n", if opts.thorough() { 1500 } else { 60 });
+    let burst_every = opts.u64("burst_every", 12);
     let mut handles = Vec::new();
     for sh in 0..shards {
         let dir = dir.clone();
         handles.push(std::thread::spawn(move || {
-            run_child(&["failpathchild".into(), format!("out={dir}"), format!("shard={sh}"), format!("seed={seed}"), format!("n={n}")], 300 + n * 2)
+            run_child(&["failpathchild".into(), format!("out={dir}"), format!("shard={sh}"), format!("seed={seed}"), format!("n={n}"), format!("burst_every={burst_every}")], 300 + n * 4)
         }));
     }
     let mut total = 0u64;
